@@ -8,6 +8,7 @@ import (
 	"google.golang.org/protobuf/encoding/protowire"
 	"google.golang.org/protobuf/proto"
 	"google.golang.org/protobuf/reflect/protoreflect"
+	"google.golang.org/protobuf/runtime/protoiface"
 	"pgregory.net/rapid"
 
 	"verif/kit/model"
@@ -138,6 +139,19 @@ func checkC14(ctx *Ctx, c *Case) error {
 		if got := canonI(p2); got != wantDiscard {
 			return fmt.Errorf("DiscardUnknown result differs (unknown must vanish at every depth, nothing else may change): %s", diffStr(got, wantDiscard))
 		}
+	}
+	// the method table called directly, as a codec that bypasses the proto package
+	// would: Depth left unset, the DiscardUnknown flag set
+	if meth := t.New().ProtoReflect().ProtoMethods(); meth != nil && meth.Unmarshal != nil && meth.Flags&protoiface.SupportUnmarshalDiscardUnknown != 0 && wantDiscard != "" {
+		pm := t.New()
+		_, err := meth.Unmarshal(protoiface.UnmarshalInput{Message: pm.ProtoReflect(), Buf: b, Flags: protoiface.UnmarshalDiscardUnknown})
+		if err != nil {
+			return fmt.Errorf("ProtoMethods.Unmarshal (DiscardUnknown flag, Depth unset) rejected a well-typed stream: %v", err)
+		}
+		if got := canonI(pm); got != wantDiscard {
+			return fmt.Errorf("ProtoMethods.Unmarshal called directly with the DiscardUnknown flag (Depth unset) differs from proto.UnmarshalOptions{DiscardUnknown}: %s", diffStr(got, wantDiscard))
+		}
+		ctx.Label("direct method call with DiscardUnknown")
 	}
 	// options combined on one call: the stream is decoded a second time INTO the
 	// message that already holds it (unknown fields included), with Merge +
